@@ -39,10 +39,62 @@ func c02ExecSeq(fs []*mocrelay.ReqFilter, es []*mocrelay.Event) any {
 	return M{"done0": done0, "steps": steps, "panic": p != ""}
 }
 
+// c02TagCase: only tag conditions decide.  2–5 conditions over a tiny alphabet of names and values, an event with
+// 0–8 tags that repeat names (adjacent and non-adjacent), so that "all but one condition satisfied", "one condition
+// satisfied several times" and "a name that is no condition in between" are all common.
+func c02TagCase(r *Rng, g *EvGen) (*mocrelay.ReqFilter, *mocrelay.Event) {
+	names := []string{"e", "p", "t", "a", "d", "E"}
+	vals := []string{"v1", "v2", "v3"}
+	f := &mocrelay.ReqFilter{Tags: map[string][]string{}}
+	for k := r.Range(2, 5); k > 0; k-- {
+		vs := []string{}
+		for j := r.Range(1, 2); j > 0; j-- {
+			vs = append(vs, pick(r, vals))
+		}
+		f.Tags[pick(r, names)] = vs
+	}
+	e := g.Event()
+	e.Tags = []mocrelay.Tag{}
+	for k := r.Intn(9); k > 0; k-- {
+		name := pick(r, names)
+		if r.P(10) {
+			name = pick(r, []string{"x", "ee", ""})
+		}
+		switch r.Intn(8) {
+		case 0:
+			e.Tags = append(e.Tags, mocrelay.Tag{name})
+		case 1:
+			e.Tags = append(e.Tags, mocrelay.Tag{name, pick(r, vals), pick(r, vals)})
+		default:
+			e.Tags = append(e.Tags, mocrelay.Tag{name, pick(r, vals)})
+		}
+	}
+	if r.P(30) {
+		f.Limit = ptr(int64(r.Range(0, 2)))
+	}
+	return f, e
+}
+
 func c02Gen(r *Rng, n int, tier string) {
 	g := &EvGen{r: r}
 	for i := 0; i < n; i++ {
-		if r.P(70) {
+		if r.P(20) {
+			f, e := c02TagCase(r, g)
+			if r.P(70) {
+				emit(M{"op": "match", "f": filterJ(f), "e": evJ(e), "out": c02ExecMatch(f, e)})
+			} else {
+				fs := []*mocrelay.ReqFilter{f}
+				es := []*mocrelay.Event{e}
+				for k := r.Intn(3); k > 0; k-- {
+					f2, e2 := c02TagCase(r, g)
+					if r.P(50) {
+						fs = append(fs, f2)
+					}
+					es = append(es, e2)
+				}
+				emit(M{"op": "seq", "fs": filtersJ(fs), "es": evsJ(es), "out": c02ExecSeq(fs, es)})
+			}
+		} else if r.P(70) {
 			e := g.Event()
 			if r.P(2) {
 				e.Tags = append(e.Tags, mocrelay.Tag{}) // the excluded point: empty tag
